@@ -399,10 +399,11 @@ example : ∃ bufs, serCompact ext0 (ofValue exStrDocV) = .ok bufs ∧
 
 /-! ## the typed clause: serialise a typed value, read it back with the typed deserializer -/
 
-/-- **C04 (typed values, compact) — partial.** For every schema `s` of the fragment `agreeFrag2` — bool, the twelve integer
+/-- **C04 (typed values, compact) — partial.** For every schema `s` of the fragment `agreeFragT` — bool, the twelve integer
     types (128-bit included, any value of the type), char, `String`, byte buffers, unit / unit structs, `Option`, newtype
-    structs, `Vec`, tuples, maps with string / char / bool / unit-enum keys, structs, externally tagged enums with unit /
-    newtype / non-empty tuple / struct variants — and every well-formed value `v` of that type (`wfTV`: the value
+    structs, `Vec`, tuples, maps with every key kind (string, the twelve integer widths, bool, char, unit-variant enums),
+    structs, externally tagged enums with unit / newtype / non-empty tuple / struct variants — and every well-formed value
+    `v` of that type (`wfTV`: the value
     inhabits the type, strings valid UTF-8, `char`s scalar values, field / variant / key names distinct valid UTF-8, and
     not the documented exception: no `Some(x)` whose `x` serialises as JSON `null`) whose text nests at most 127 deep
     (or the limit is off): `to_string` — the calls `Serialize` makes (`progOf s v`) run through the serializer model —
@@ -410,9 +411,10 @@ example : ∃ bufs, serCompact ext0 (ofValue exStrDocV) = .ok bufs ∧
     By composition: C03 (`c03_compact`: the text is `render` of the program's image), `image_progOf` (that image is the
     image of the `Value` `valueOf s v`), `fromValue_valueOf` (`from_value(to_value(v)) = v`) and the text leg of C16
     (`agree_gen`: the typed deserializer on the printed `Value` returns what `from_value` returns).
-    Missing (named): the pretty formatter (the text leg is proved for the compact layout only); integer map keys; `f64` /
-    `f32` fields (the float step: `FloatsRoundTrip` through `scanNumber`); `Value` and `IgnoredAny` members; zero-length
-    tuple variants (`{"V":[]}` is read back by the text deserializer — `from_value` refuses it, the composition breaks);
+    Missing (named): the pretty formatter (the text leg is proved for the compact layout only; the correspondence op `rtm`
+    runs both formatters); `f64` / `f32` fields (the float step: `FloatsRoundTrip` through the typed number scanner);
+    `Value` members (the text leg covers `Value` targets, but `wfTV` does not yet carry `WFValue` for them) and `IgnoredAny`
+    (no `Serialize` impl); zero-length tuple variants (`{"V":[]}` is read back by the text deserializer — `from_value` refuses it, the composition breaks);
     `arbitrary_precision`. The `Serialize` impls themselves are serde's / serde_derive's (assumption; the correspondence
     op `rtm` replays exactly these calls against the crate). -/
 theorem c04_typed_partial (mcfg : Cfg) (_hap : mcfg.ap = false) (src : Src) (ext : Ext) (hext : ExtOK ext)
